@@ -78,6 +78,15 @@ Theorem C07_parsed_tree_is_evaluated_tree num (dec : Z -> nat -> num * num) (s :
 Proof. exact (regroup_to_expr num dec s). Qed.
 Print Assumptions C07_parsed_tree_is_evaluated_tree.
 
+(* WRITER AND READER AGREE for every variable position i and every lag / lead k: the text written for `NAME[t+k]`
+   (`solved_values(i+1, index+k)`, C07_term_rewritten) is lexed and parsed by the Fortran grammar to the variable node
+   (row i, period t+k) *)
+Theorem C07_term_text_reads_back i k :
+  let txt := term_f (S i) (idx_text k) in
+  match lex (S (length txt)) txt with Some ts => p_primary 1 ts | None => None end = Some (SVar i k, []).
+Proof. exact (term_text_reads_back i k). Qed.
+Print Assumptions C07_term_text_reads_back.
+
 (* ================================================================== error codes *)
 Theorem C07_wrapper_codes_are_template_codes :
   w_t_raise = c_num_raise /\ w_t_skip = c_num_skip /\ w_s_raise = c_num_raise /\ w_s_skip = c_num_skip /\
